@@ -78,7 +78,9 @@ class C09(Prop):
     RULE = ("phased matrices (1-4 phases, binary alleles) and unphased dosage matrices (ploidy 1,2,3,4,6) of "
             "1-12 taxa or one of the boundary sizes 49, 98, 103, 107, 161, 187, 196, 197 (each boundary size at "
             "least once per run, with a locus fixed at 1 and one fixed at 0), 1-5 loci drawn from the patterns "
-            "fixed-1 / fixed-0 / one-copy-off / exactly-one-half / all-heterozygous / random; every statistic "
+            "fixed-1 / fixed-0 / one-copy-off / exactly-one-half / all-heterozygous / random; a sweep over every size 1..400 and over "
+            "very large populations (50000..200001 diploid, 100001 haploid, 25000/30001 tetraploid) one copy off "
+            "fixation; every statistic "
             "called with a dtype drawn from its admissible list; the phased matrix is also projected through "
             "DenseUnphasedGenotyping and both objects are queried.  Non-trivial = at least 2 taxa, a fixed and a "
             "polymorphic locus in the same matrix")
@@ -167,6 +169,10 @@ class C09(Prop):
                     "mat": [[0, 2], [1, 2], [2, 2], [2, 0]]})
         # every size 1..400 with a fully fixed locus (quick); `exhaustive` extends it to 2000 (thorough)
         out.append({"kind": "sweep", "nmax": 400, "ploidies": [1, 2, 4]})
+        # very large populations one copy off fixation: a flag computed with a tolerance (numpy.isclose, 1e-5)
+        # instead of exact float equality only shows when 1/(ploidy*n) <= 1e-5
+        out.append({"kind": "sweep", "nmax": 0, "ploidies": [],
+                    "big": [[2, 50000], [2, 65536], [2, 100000], [2, 200001], [1, 100001], [4, 25000], [4, 30001]]})
         return out
 
     def exhaustive(self, tier):
@@ -241,6 +247,33 @@ class C09(Prop):
                                else (0.0 < p[2] < 1.0 and not bool(fx[2]) and bool(po[2]))))
                     if not ok:
                         bad.append([who, k, n, canon.enc(p)])
+        for k, n in case.get("big", []):
+            m = k * n
+            Z = numpy.zeros((n, 4), dtype="int8")
+            Z[:, 0] = k
+            Z[:, 2] = k
+            Z[n // 3, 2] = k - 1            # one copy of allele 0 left
+            Z[(2 * n) // 3, 3] = 1          # one copy of allele 1 present
+            objs = [("unphased", ug.DenseGenotypeMatrix(Z, ploidy=k))]
+            if k == 2:
+                G = numpy.zeros((2, n, 4), dtype="int8")
+                G[:, :, 0] = 1
+                G[:, :, 2] = 1
+                G[1, n // 3, 2] = 0
+                G[0, (2 * n) // 3, 3] = 1
+                P = pg.DensePhasedGenotypeMatrix(G)
+                objs += [("phased", P), ("projection", gt.DenseUnphasedGenotyping().genotype(P))]
+            for who, o in objs:
+                p, fx, po, mf, p32 = o.afreq(), o.afixed(), o.apoly(), o.maf(), o.afreq("float32")
+                ok = (p[0] == 1.0 and p[1] == 0.0 and p[2] == (m - 1) / m and p[3] == 1 / m
+                      and 0.0 < p[2] < 1.0 and 0.0 < p[3] < 1.0
+                      and [bool(x) for x in fx] == [True, True, False, False]
+                      and [bool(x) for x in po] == [False, False, True, True]
+                      and mf[0] == 0.0 and mf[1] == 0.0 and 0.0 < mf[2] <= 0.5 and abs(mf[2] - 1 / m) <= 1e-12
+                      and mf[3] == 1 / m
+                      and p32[0] == 1.0 and p32[1] == 0.0 and 0.0 < p32[2] < 1.0 and 0.0 < p32[3] < 1.0)
+                if not ok:
+                    bad.append([who, k, n, canon.enc(p), [bool(x) for x in fx], [bool(x) for x in po]])
         return {"bad": bad[:20], "nbad": len(bad)}
 
     def run_impl(self, case):
@@ -298,7 +331,8 @@ class C09(Prop):
             ok = obs["nbad"] == 0
             return {"corr": ok, "spec": ok, "nontrivial": True,
                     "detail": f"spec_fail=[{'' if ok else 'boundary clause (afreq exactly 0/1, afixed, apoly) at sizes'}] "
-                              f"sweep 1..{case['nmax']} ploidies={case['ploidies']} failing={obs['bad'][:6]} count={obs['nbad']}"}
+                              f"sweep 1..{case['nmax']} ploidies={case['ploidies']} big={case.get('big', [])} "
+                              f"failing={obs['bad'][:6]} count={obs['nbad']}"}
         for a in answers:
             if "err" in a:
                 # a flag array that is not 0/1, or a malformed output, is an implementation failure
@@ -344,6 +378,11 @@ class C09(Prop):
                 "clauses": (verdict.get("detail", "").split("]")[0])[:200]}
 
     def shrink(self, case):
+        if case["kind"] == "sweep" and case.get("big"):
+            for i in range(len(case["big"])):
+                if len(case["big"]) > 1:
+                    yield dict(case, big=case["big"][:i] + case["big"][i + 1:])
+            return
         if case["kind"] == "sweep":
             if isinstance(self._last_bad(case), int):
                 yield dict(case, nmax=self._last_bad(case))
@@ -432,6 +471,14 @@ class C09(Prop):
         def afixed_one_only(self, dtype=None):
             return cast(self.afreq() == 1.0, dtype)
 
+        def afixed_isclose(self, dtype=None):           # tolerance instead of exact float equality
+            p = self.afreq()
+            return cast(numpy.isclose(p, 0.0) | numpy.isclose(p, 1.0), dtype)
+
+        def u_apoly_isclose(self, dtype=None):
+            p = self.afreq()
+            return cast(~(numpy.isclose(p, 0.0) | numpy.isclose(p, 1.0)), dtype)
+
         def u_apoly_le(self, dtype=None):
             p = self.afreq()
             return cast((p > 0.0) & (p <= 1.0), dtype)
@@ -508,6 +555,8 @@ class C09(Prop):
             ("tafreq_divides_by_ntaxa", lambda: patch((PG, "tafreq", p_tafreq_ntaxa))),
             ("acount_first_phase_only", lambda: patch((PG, "acount", p_acount_taxa_only))),
             ("afixed_tests_one_only", lambda: patch((UG, "afixed", afixed_one_only))),
+            ("afixed_isclose_tolerance", lambda: patch((UG, "afixed", afixed_isclose))),
+            ("apoly_isclose_tolerance", lambda: patch((UG, "apoly", u_apoly_isclose))),
             ("apoly_le_one", lambda: patch((UG, "apoly", u_apoly_le))),
             ("phased_apoly_min_mask_only", lambda: patch((PG, "apoly", p_apoly_min_only))),
             ("gtcount_unphased_nphase_classes_D2", lambda: patch((UG, "gtcount", u_gtcount_nphase))),
